@@ -1,7 +1,8 @@
 (* C04 — property theorems for the template language (M1).  The #expr theorems are in ExprProperties.v and
    ExprGenProperties.v.  Each theorem is closed by `exact <lemma>` and followed by Print Assumptions. *)
 From Coq Require Import List NArith Bool.
-From MW Require Import Common.Str C03.Model C04.Model C04.Proofs C04.ProofsEq.
+From Coq Require Import ZArith.
+From MW Require Import Common.Str C03.Model C04.Model C04.Proofs C04.ProofsEq C04.ProofsNum.
 Import ListNotations.
 
 (* C04_eval_correct (DESIGN.md): for every universe (cyclic or not) on which the reference semantics is defined
@@ -170,3 +171,68 @@ Example C04_example_eq_call_program :
   impl_expand_r exq2_u [default_key] 100 exq2_page = Ok exq2_out.
 Proof. exact example_eq_call_program. Qed.
 Print Assumptions C04_example_eq_call_program.
+
+(* ------------------------------------------------------------------ numbers by value, exponent notation included *)
+
+(* "numeric comparison is by value" for the spelling int() rejects and float() / PHP is_numeric accept: for EVERY non-empty digit
+   string D, every non-empty digit string N and both letters e / E, the reference equality num_aware_eq (used by `eval` for
+   #ifeq and #switch) and the model of magics.maybe_numeric_compare both say that  D e N  equals  D followed by (value of N)
+   zeros:  1e3 = 1000, 25E2 = 2500, 7e0 = 7, 007e01 = 0070.  (dval s 0 = the integer spelled by the digit string s.) *)
+Theorem C04_exponent_numbers_compare_by_value :
+  forall (ds : str) (c : N) (es : str),
+  all_digits ds = true -> ds <> [] -> (c = 101 \/ c = 69)%N -> all_digits es = true -> es <> [] ->
+  num_aware_eq (ds ++ c :: es) (ds ++ repeat 48%N (Z.to_nat (dval es 0))) = true /\
+  maybe_numeric_compare (ds ++ c :: es) (ds ++ repeat 48%N (Z.to_nat (dval es 0))) = true.
+Proof. exact exponent_number_by_value. Qed.
+Print Assumptions C04_exponent_numbers_compare_by_value.
+
+(* the fold of an exponent into (mantissa, fraction digits) preserves the value: scale m f e denotes (m / 10^f) * 10^e
+   (num_eqb = equality of the denoted decimal fractions, cross-multiplied) *)
+Theorem C04_scale_value_nonneg : forall m f e, (0 <= e)%Z -> num_eqb (scale m f e) ((m * 10 ^ e)%Z, f) = true.
+Proof. exact scale_value_nonneg. Qed.
+Print Assumptions C04_scale_value_nonneg.
+
+Theorem C04_scale_value_neg : forall m f e, (e < 0)%Z -> scale m f e = (m, (f + Z.to_nat (- e))%nat).
+Proof. exact scale_value_neg. Qed.
+Print Assumptions C04_scale_value_neg.
+
+(* THE NUMBER GRAMMAR, shape by shape (unsigned part; parse_num strips blanks and handles one leading sign): for all digit
+   strings ip, fr, es (dval = the integer spelled), e or E, exponent sign absent / + / -:
+     ip                      ->  (dval ip, 0)
+     ip . fr   (ip, fr not both empty: "5.", ".5", "2.50")            ->  (all digits as one integer, |fr|)
+     ip [eE][+-]?es          ->  scale (dval ip) 0 (+-dval es)          ("1e3", "2E0", "5e-1": rejected by int(), taken by float())
+     ip . fr [eE][+-]?es     ->  scale (all digits) |fr| (+-dval es)    ("2.5E+1", ".25e2", "1.e3")
+   with C04_scale_value_* giving the denoted value (m / 10^f) * 10^e. *)
+Theorem C04_number_grammar_digits : forall ds,
+  all_digits ds = true -> ds <> [] -> parse_unsigned ds = Some (dval ds 0, O).
+Proof. exact parse_unsigned_digits. Qed.
+Print Assumptions C04_number_grammar_digits.
+
+Theorem C04_number_grammar_fraction : forall ip fr,
+  all_digits ip = true -> all_digits fr = true -> ip ++ fr <> [] ->
+  parse_unsigned (ip ++ 46%N :: fr) = Some (dval fr (dval ip 0), length fr).
+Proof. exact parse_unsigned_frac. Qed.
+Print Assumptions C04_number_grammar_fraction.
+
+Theorem C04_number_grammar_exponent : forall ip c sg es,
+  all_digits ip = true -> ip <> [] -> (c = 101 \/ c = 69)%N -> all_digits es = true -> es <> [] ->
+  parse_unsigned (ip ++ exp_str c sg es) = Some (scale (dval ip 0) O (exp_val sg es)).
+Proof. exact parse_unsigned_int_exp_gen. Qed.
+Print Assumptions C04_number_grammar_exponent.
+
+Theorem C04_number_grammar_fraction_exponent : forall ip fr c sg es,
+  all_digits ip = true -> all_digits fr = true -> ip ++ fr <> [] ->
+  (c = 101 \/ c = 69)%N -> all_digits es = true -> es <> [] ->
+  parse_unsigned (ip ++ 46%N :: fr ++ exp_str c sg es) = Some (scale (dval fr (dval ip 0)) (length fr) (exp_val sg es)).
+Proof. exact parse_unsigned_frac_exp. Qed.
+Print Assumptions C04_number_grammar_fraction_exponent.
+
+(* non-vacuity / the other shapes of the numeric grammar by computation: 1e3 = 1000, 5e-1 = .5, 2.5E+1 = " 025. ",
+   1e3 <> 5e-1; "1e" and "e3" are not numbers (compared as text) *)
+Example C04_example_exponent_numbers :
+  num_aware_eq s_1e3 s_1000 = true /\ num_aware_eq s_5em1 s_p5 = true /\ num_aware_eq s_25E1 s_025 = true /\
+  num_aware_eq s_1e3 s_5em1 = false /\ parse_num s_1e = None /\ parse_num s_e3 = None /\
+  num_aware_eq s_1e s_1e = true /\ num_aware_eq s_1e s_e3 = false /\
+  maybe_numeric_compare s_5em1 s_p5 = true /\ maybe_numeric_compare s_1e3 s_5em1 = false.
+Proof. exact exponent_examples. Qed.
+Print Assumptions C04_example_exponent_numbers.
